@@ -253,7 +253,7 @@ var c06alphabet = []string{"'", `"`, `\`, "n", "\n", "\r", "\x00", " ", ".", "/"
 
 func checkC06(c *Ctx) (string, bool, []string) {
 	r := c.R
-	rule := "every Unicode scalar value as a one-rune string and embedded as a<r>b through QuoteString/QuoteIdent/IdentNeedsQuotes vs the scanner; all strings of length <=3 (<=4 thorough) over a 19-symbol hostile alphabet through helpers and 14 statement slots; all keywords in 3 casings; multi-part names; random strings to length 64. Non-trivial = string needs escaping or quoting, or is inexpressible; distinct by (slot, string)."
+	rule := "every Unicode scalar value as a one-rune string and embedded as a<r>b through QuoteString/QuoteIdent/IdentNeedsQuotes vs the scanner; all strings of length <=3 (<=4 thorough) over a 19-symbol hostile alphabet through helpers and 14 statement slots; all keywords in 3 casings; multi-part names; random strings to length 64; values of 14 to 8194 characters at and around powers of two (bare-identifier characters only, with one hostile character, runs of quotes, backslashes and multi-byte characters). Non-trivial = string needs escaping or quoting, or is inexpressible; distinct by (slot, string)."
 	assume := []string{"expressible = valid UTF-8 without NUL or CR", "for inexpressible values a parse error or any single literal in the slot is acceptable"}
 	if c.Replay != nil {
 		local := map[string]int64{}
@@ -394,6 +394,39 @@ func checkC06(c *Ctx) (string, bool, []string) {
 		if rg.P(0.1) {
 			c06Multi(c, [3]string{s, c06alphabet[rg.Intn(len(c06alphabet))], "m" + s}, local)
 		}
+		r.MergeCounts(local)
+	})
+	// 6. long values at and around the sizes where buffers are usually cut
+	var longs []string
+	for _, base := range []int{16, 32, 64, 128, 256, 512, 1024, 4096, 8192} {
+		for d := -2; d <= 2; d++ {
+			n := base + d
+			rg := mon.NewRng(c.Seed, "c06.long", n)
+			var bare, mixed strings.Builder
+			for j := 0; j < n; j++ {
+				ch := "abcdefghijklmnopqrstuvwxyzABCXYZ_0123456789"[rg.Intn(43)]
+				if j == 0 {
+					ch = "abcXYZ_"[rg.Intn(7)]
+				}
+				bare.WriteByte(ch)
+				mixed.WriteByte(ch)
+			}
+			longs = append(longs, bare.String())
+			m := mixed.String()
+			k := rg.Intn(n)
+			longs = append(longs, m[:k]+c06alphabet[rg.Intn(len(c06alphabet))]+m[k+1:], strings.Repeat("é", n), strings.Repeat("'", n), strings.Repeat(`"`, n), strings.Repeat(`\`, n))
+		}
+	}
+	mon.Parallel(len(longs), c.Workers, func(i int) {
+		local := map[string]int64{}
+		s := longs[i]
+		c06Helpers(c, s, local)
+		for _, sl := range c06slots {
+			c06Template(c, sl, s, local)
+		}
+		c06Multi(c, [3]string{s, "", s}, local)
+		r.DistinctStr("long|" + s)
+		local["long-values"]++
 		r.MergeCounts(local)
 	})
 	for _, sl := range c06slots {
